@@ -144,6 +144,41 @@ def tabulate():
     T['arr2matIdx'] = functions.convert_array2symmetric_matrix(ind.copy()).reshape(-1).astype(int).tolist()
     T['mat2arrIdx'] = functions.convert_symmetric_matrix2array(
         np.arange(9, dtype=float).reshape(1, 3, 3)).reshape(-1).astype(int).tolist()
+    # C17: engineering-shear factors per array slot as exact rationals (num, den), read off indicator inputs;
+    # then "index map x slot-wise factor, applied after / before the reordering" is checked on a random input
+    from fractions import Fraction as _Fr
+    a2m, m2a = T['arr2matIdx'], T['mat2arrIdx']
+    e6, e9 = np.eye(6), np.eye(9).reshape(9, 3, 3)
+    fa = functions.convert_array2symmetric_matrix(e6.copy(), from_engineering=True).reshape(6, 9)
+    fm = functions.convert_symmetric_matrix2array(e9.copy(), to_engineering=True).reshape(9, 6)
+    sa = [_Fr(float(fa[k, a2m.index(k)])) for k in range(6)]
+    sm = [_Fr(float(fm[m2a[k], k])) for k in range(6)]
+    r6, o6 = rng.integers(1, 10**6, size=(3, 6)).astype(float), [int(x) for x in rng.permutation(6)]
+    r9 = rng.integers(1, 10**6, size=(3, 3, 3)).astype(float)
+    fsa, fsm = np.array([float(x) for x in sa]), np.array([float(x) for x in sm])
+    assert np.array_equal(functions.convert_array2symmetric_matrix(r6.copy(), order=o6).reshape(3, 9), r6[:, o6][:, a2m]), \
+        'array2symmetric_matrix is not an index map'
+    assert np.array_equal(functions.convert_array2symmetric_matrix(r6.copy(), from_engineering=True, order=o6).reshape(3, 9),
+                          (r6[:, o6] * fsa)[:, a2m]), 'array2symmetric_matrix: engineering factors are not slot-wise after reordering'
+    assert np.array_equal(functions.convert_symmetric_matrix2array(r9.copy(), order=o6), r9.reshape(3, 9)[:, m2a][:, o6]), \
+        'symmetric_matrix2array is not an index map'
+    assert np.array_equal(functions.convert_symmetric_matrix2array(r9.copy(), to_engineering=True, order=o6),
+                          (r9.reshape(3, 9)[:, m2a] * fsm)[:, o6]), 'symmetric_matrix2array: engineering factors are not slot-wise before reordering'
+    T['arr2matEng'] = [(x.numerator, x.denominator) for x in sa]
+    T['mat2arrEng'] = [(x.numerator, x.denominator) for x in sm]
+
+    # C02: header constants of FrontISTRData._split_series, read from its source with ast
+    import ast as _ast, inspect as _inspect, textwrap as _tw
+    _src = _ast.parse(_tw.dedent(_inspect.getsource(fistr_mod.FrontISTRData._split_series)))
+    _if = next(n for n in _ast.walk(_src) if isinstance(n, _ast.If) and 'find_match' in _ast.dump(n.test))
+    _marker = next(n.value for n in _ast.walk(_if.test) if isinstance(n, _ast.Constant) and isinstance(n.value, str))
+    _cmp = next(n for n in _ast.walk(_if.test) if isinstance(n, _ast.Compare))
+    assert isinstance(_cmp.ops[0], _ast.Eq) and _cmp.comparators[0].value == 0, '_split_series: layout test changed shape'
+
+    def _const(body):
+        a = next(n for n in body if isinstance(n, _ast.Assign) and n.targets[0].id == 'content_start')
+        return int(a.value.value)
+    T['resSkipOld'], T['resSkipV2'], T['resMarker'] = _const(_if.body), _const(_if.orelse), _marker
 
     sizes = {}
     for mod in (graph_processor.GraphProcessorMixin, geometry_processor.GeometryProcessorMixin,
@@ -162,6 +197,8 @@ def render(T):
     out.append('def elementTypes : List (List Char) := [' + ', '.join(chars(t) for t in ET) + ']')
     for k in ['prismPermWrite', 'prismPermRead', 'tet2ToMeshio', 'tet2FromMeshio', 'arr2matIdx', 'mat2arrIdx']:
         out.append(f'def {k} : List Nat := {ll(T[k])}')
+    for k in ['arr2matEng', 'mat2arrEng']:
+        out.append(f'def {k} : List (Nat × Nat) := [' + ', '.join(f'({a}, {b})' for a, b in T[k]) + ']')
     for t, fs in T['facesOf'].items():
         out.append(f'def faces_{t} : List (List Nat) := {ll(fs)}')
     for t, fs in T['polyFacesOf'].items():
@@ -179,6 +216,9 @@ def render(T):
         f'({chars(a)}, {chars(b)})' for a, b in T['meshioToFemio'].items()) + ']')
     out.append('def lruSizes : List (List Char × Nat) := [' + ', '.join(
         f'({chars(k)}, {v})' for k, v in T['lruSizes'].items()) + ']')
+    out.append(f"def resSkipOld : Nat := {T['resSkipOld']}")
+    out.append(f"def resSkipV2 : Nat := {T['resSkipV2']}")
+    out.append(f"def resMarker : List Char := {chars(T['resMarker'])}")
     out += ['', 'end Femio.Gen', '']
     return '\n'.join(out)
 
